@@ -119,11 +119,12 @@ def replay_server(ctx, binary, cases, label, mode="script", drop_waits=False, ti
             sig = _kf_server(c, al, got)
             if hard:
                 sig = None
-            key = json.dumps(sig, sort_keys=True) if sig else "none:%s:%s" % (c["tags"].get("m"), got.get("st"))
+            key = json.dumps(sig, sort_keys=True) if sig else "%s%s:%s:%s" % (
+                "0-DELIVERED:" if got.get("dl") else "", "0-REVEALED:" if got.get("rv") else "1:", c["tags"].get("m"), got.get("st"))
             groups.setdefault(key, []).append((c, i, sig))
     ctx.cov["evaluations"] += n
     ctx.cov["traces_validated_against_impl"] += n
-    for key, items in groups.items():
+    for key, items in sorted(groups.items()):
         log("%s: %d framings not explained by the spec [%s]" % (label, len(items), key))
         for c, i, sig in items[:3]:
             one = {k: c[k] for k in ("id", "key", "env", "wire")}
